@@ -176,7 +176,8 @@ def tlc(specdir, module, cfg, *, workers="auto", timeout=600, simulate=None, dep
             txt += "\nCONSTANTS\n" + "\n".join(("  %s <- %s" % (k, v[2:])) if isinstance(v, str) and v.startswith("<-") else ("  %s = %s" % (k, v)) for k, v in consts.items()) + "\n"
             cfgp = os.path.join(wd, "_gen_" + cfg)
             open(cfgp, "w").write(txt)
-        cmd = ["java", "-XX:+UseParallelGC", "-Xss64m"]
+        os.makedirs(os.path.join(wd, "jtmp"), exist_ok=True)      # (TLC unpacks its standard modules into java.io.tmpdir and leaves them there)
+        cmd = ["java", "-XX:+UseParallelGC", "-Xss64m", "-Djava.io.tmpdir=" + os.path.join(wd, "jtmp")]
         if heap:
             cmd.append("-Xmx" + heap)
         cmd += list(java_opts)
